@@ -319,7 +319,7 @@ def replay_mass_roundtrip(point, order, nfl):
     masses2 = [2.0, 22.0, 30000.0]
     w = masses2[nfl - 3] * r
     errs, As = [], []
-    for al in (0.30, 0.15, 0.075):
+    for al in (0.12, 0.06, 0.03, 0.015):
         sc = _real_sc(order, "exact", 5, masses2, [1.0, 1.0, 1.0], alphas=al, mu=91.0)
         up = mm.evolve(4.0, w, sc, ratios, 1.0, w, nf_ref=nfl, nf_to=nfl + 1)
         back = mm.evolve(up, w, sc, ratios, 1.0, w, nf_ref=nfl + 1, nf_to=nfl)
